@@ -58,6 +58,20 @@ CONTEXTS = [
     ('let_missing_var', lambda b: {'$let': {'vars': {'v': '$nope'}, 'in': b}}),
     ('let_var_after_missing', lambda b: {'$let': {'vars': {'u': '$nope', 'v': b}, 'in': 1}}),
     ('array_path_operand', lambda b: {'$eq': ['$arr1.x', b]}),
+    # argument lists of the wrong length: since d10f41c the arity is checked before any argument
+    # is evaluated (OperationFailure) - loud before (assertion / ValueError) and after; and the
+    # list operands of the accumulators in expression position (50b60be)
+    ('arity_short', lambda b: {'$eq': [b]}),
+    ('arity_long', lambda b: {'$subtract': [1, 2, b]}),
+    ('arity_bare', lambda b: {'$gt': b}),
+    ('cond_list_long', lambda b: {'$cond': ['$t', 1, 2, b]}),
+    ('cond_list_short', lambda b: {'$cond': ['$f', b]}),
+    ('ifnull_single', lambda b: {'$ifNull': [b]}),
+    ('setequals_single', lambda b: {'$setEquals': [b]}),
+    ('in_bare', lambda b: {'$in': b}),
+    ('arrayelemat_short', lambda b: {'$arrayElemAt': [b]}),
+    ('sum_missing_then_bad', lambda b: {'$sum': ['$nope', b]}),
+    ('max_list_item', lambda b: {'$max': [1, b]}),
 ]
 HOSTS = ['project', 'addFields', 'expr', 'groupId']
 
